@@ -71,6 +71,55 @@ static std::string S(const WebSocketMsg& m)
 	return std::string((const char*)b.data(), (size_t)(b.length() > 0 ? b.length() : 0));
 }
 
+// Every view of a receive() result must show the same message: length(), ByteArray(m), String(m), bool(m) / !m and the
+// C-string view operator* -- the payload followed by a terminating NUL.  (The unchanged library terminates EVERY result:
+// text, binary, the empty "no message" result and a close reason; reading p[length()] is therefore in bounds, and ASan
+// reports it when a result comes back with an exactly full array and no terminator.)
+static bool msg_check(const WebSocketMsg& m, std::string& why)
+{
+	int n = m.length();
+	if (n < 0) {
+		why = vf::str("receive() returned a message of length ", n);
+		return false;
+	}
+	ByteArray b = m;
+	if (b.length() != n) {
+		why = vf::str("ByteArray(msg) has ", b.length(), " bytes, msg.length() is ", n);
+		return false;
+	}
+	if (bool(m) != (n != 0) || (!m) != (n == 0)) {
+		why = vf::str("bool(msg) / !msg disagree with length() ", n);
+		return false;
+	}
+	const char* p = *m;
+	if (!p) {
+		why = "operator* returned a null pointer";
+		return false;
+	}
+	if (n > 0 && memcmp(p, b.data(), (size_t)n) != 0) {
+		why = vf::str("the C-string view (operator*) differs from ByteArray(msg) within the ", n, " payload bytes");
+		return false;
+	}
+	if (p[n] != 0) {
+		why = vf::str("the C-string view (operator*) of a ", n, "-byte message is not terminated: byte ", n, " is 0x", vf::hexs(std::string(1, p[n])));
+		return false;
+	}
+	bool nulfree = n == 0 || memchr(p, 0, (size_t)n) == 0;
+	if (nulfree) {
+		size_t sl = strlen(p);
+		if (sl != (size_t)n) {
+			why = vf::str("strlen(*msg) is ", sl, " for a NUL-free message of ", n, " bytes");
+			return false;
+		}
+		String str = m;
+		if (str.length() != n || memcmp(*str, p, (size_t)n) != 0) {
+			why = vf::str("String(msg) has length ", str.length(), " / other bytes than the ", n, "-byte message");
+			return false;
+		}
+	}
+	return true;
+}
+
 static std::string diff(const std::string& got, const std::string& want)
 {
 	if (got.size() != want.size())
@@ -271,10 +320,8 @@ static bool next_msg(WebSocket& ws, std::string& out, int& empties, std::string&
 		WebSocketMsg m = ws.receive();
 		if (w)
 			w->epoch[me]++;
-		if (m.length() < 0) {
-			why = vf::str("receive() returned a message of length ", m.length());
+		if (!msg_check(m, why))
 			return false;
-		}
 		if (m.length() > 0) {
 			out = S(m);
 			return true;
@@ -793,19 +840,25 @@ struct InPlan {
 	bool nontrivial = false;
 	int nfrag_max = 1, ctl_inside = 0, ctl_between = 0, nonminimal = 0, empty_frag = 0, zero_key_byte = 0, masked = 0, unmasked = 0;
 	long long cut = -1;
+	std::vector<std::pair<size_t, long>> gaps; // (stream offset, ms): the peer pauses there
+	std::string close_reason;                  // end kind 3: close frame with status code and this reason text
+	int gap_between_fragments = 0, gap_between_messages = 0, gap_inside_frame = 0;
 };
 
 // ops:  role isclient chunk
 //       ctl kind len seed masked key where      (kind 0 ping, 1 pong; attaches to the next msg: where mod (nfrag+1) =
 //                                                0 before its first frame, j after its j-th frame)
 //       msg type len seed masked key nfrag s1 s2 s3 nm
-//       end kind                                (0 EOF, 1 close frame without payload, 2 close frame with code 1000)
+//       gap ms where inframe                    (the peer pauses ms milliseconds; attaches to the next msg like ctl: before its frame
+//                                                (where mod (nfrag+1)); inframe != 0: inside that frame, inframe bytes after its start)
+//       end kind                                (0 EOF, 1 close frame without payload, 2 close frame with code 1000,
+//                                                3 close frame with code 1000 and a reason text)
 //       cut n                                   (stream truncated to n mod (size+1) bytes)
 static InPlan build_in(const vf::Case& c)
 {
 	InPlan p;
 	int end_kind = 0;
-	std::vector<vf::Op> pending;
+	std::vector<vf::Op> pending, pending_gaps;
 	auto ctl_frame = [&](const vf::Op& o) {
 		ref::WsFrame f;
 		f.opcode = (o.i(0) & 1) ? 10 : 9;
@@ -824,8 +877,10 @@ static InPlan build_in(const vf::Case& c)
 		}
 		else if (o.name == "ctl")
 			pending.push_back(o);
+		else if (o.name == "gap")
+			pending_gaps.push_back(o);
 		else if (o.name == "end")
-			end_kind = (int)(((o.i(0) % 3) + 3) % 3);
+			end_kind = (int)(((o.i(0) % 4) + 4) % 4);
 		else if (o.name == "cut")
 			p.cut = o.i(0) < 0 ? -o.i(0) : o.i(0);
 		else if (o.name == "msg") {
@@ -856,10 +911,25 @@ static InPlan build_in(const vf::Case& c)
 					p.ctl_between++;
 			}
 			pending.clear();
+			std::vector<std::vector<vf::Op>> gslot(nfrag + 1);
+			for (auto& gop : pending_gaps)
+				gslot[(size_t)(((gop.i(1) % (nfrag + 1)) + (nfrag + 1)) % (nfrag + 1))].push_back(gop);
+			pending_gaps.clear();
+			auto gap_ms = [](const vf::Op& g) { return (long)std::min<long long>(std::max<long long>(g.i(0), 0), 9000); };
 			long long from = 0;
 			for (int j = 0; j < nfrag; j++) {
 				for (auto& cop : slot[j])
 					ctl_frame(cop);
+				std::vector<vf::Op> inside;
+				for (auto& gop : gslot[j]) {
+					if (gop.i(2) != 0)
+						inside.push_back(gop);
+					else {
+						p.gaps.push_back({p.stream.size(), gap_ms(gop)});
+						(j == 0 ? p.gap_between_messages : p.gap_between_fragments)++;
+					}
+				}
+				size_t frame_start = p.stream.size();
 				ref::WsFrame f;
 				f.opcode = j == 0 ? type + 1 : 0;
 				f.fin = j == nfrag - 1;
@@ -876,8 +946,20 @@ static InPlan build_in(const vf::Case& c)
 				p.stream += ref::ws_encode(f, form);
 				if (masked && (f.key[0] == 0 || f.key[1] == 0 || f.key[2] == 0 || f.key[3] == 0))
 					p.zero_key_byte++;
+				for (auto& gop : inside) { // strictly inside the frame: 1 .. size-1 bytes after its start
+					size_t fl = p.stream.size() - frame_start;
+					if (fl < 2)
+						continue;
+					long long k = gop.i(2) < 0 ? -gop.i(2) : gop.i(2);
+					p.gaps.push_back({frame_start + 1 + (size_t)(k % (long long)(fl - 1)), gap_ms(gop)});
+					p.gap_inside_frame++;
+				}
 			}
 			p.msg_end.push_back(p.stream.size());
+			for (auto& gop : gslot[nfrag]) {
+				p.gaps.push_back({p.stream.size(), gap_ms(gop)});
+				p.gap_between_messages++;
+			}
 			for (auto& cop : slot[nfrag])
 				ctl_frame(cop);
 			p.expect.push_back(pl);
@@ -898,12 +980,18 @@ static InPlan build_in(const vf::Case& c)
 		f.opcode = 8;
 		f.masked = !p.isclient;
 		f.key[0] = 1, f.key[1] = 2, f.key[2] = 3, f.key[3] = 4;
-		if (end_kind == 2)
+		if (end_kind >= 2)
 			f.payload = std::string("\x03\xe8", 2);
+		if (end_kind == 3) {
+			p.close_reason = "going away: " + std::to_string(p.expect.size()) + " messages were sent";
+			f.payload += p.close_reason;
+		}
 		p.stream += ref::ws_encode(f);
 	}
+	std::sort(p.gaps.begin(), p.gaps.end());
 	p.expect_all = p.expect;
 	if (p.cut >= 0) {
+		p.close_reason.clear();
 		size_t n = (size_t)(p.cut % (long long)(p.stream.size() + 1));
 		p.stream.resize(n);
 		size_t k = 0;
@@ -916,18 +1004,26 @@ static InPlan build_in(const vf::Case& c)
 
 // Feeds `stream` to a WebSocket in the given role and collects the non-empty receive() results until closed().
 // Returns what the WebSocket wrote back (pongs).
-static std::string feed(bool isclient, const std::string& stream, int chunk, std::vector<std::string>& got, int& empties, int* close_code = 0)
+typedef std::vector<std::pair<size_t, long>> Gaps;
+static std::string feed(bool isclient, const std::string& stream, int chunk, std::vector<std::string>& got, int& empties, int* close_code = 0, const Gaps& gaps = Gaps())
 {
 	std::string back; // outlives the guard below (the drain helper writes into it until the guard has waited for it)
 	int fds[2];
 	make_pair(fds);
 	PairGuard g;
 	g.b = fds[1];
-	auto write_all = [&stream, chunk, fd = fds[1]] {
-		size_t off = 0, n = stream.size();
+	auto write_all = [&stream, &gaps, chunk, fd = fds[1]] {
+		size_t off = 0, n = stream.size(), gi = 0;
 		while (off < n) {
+			while (gi < gaps.size() && gaps[gi].first <= off) { // the peer pauses here
+				if (gaps[gi].second > 0)
+					usleep((useconds_t)gaps[gi].second * 1000);
+				gi++;
+			}
 			// at most ~300 pieces: the first 256 of `chunk` bytes, the rest in 64 larger ones
 			size_t k = chunk <= 0 ? n - off : off < 256 * (size_t)chunk ? std::min<size_t>((size_t)chunk, n - off) : std::min<size_t>(std::max<size_t>((size_t)chunk, n / 64), n - off);
+			if (gi < gaps.size() && gaps[gi].first < off + k)
+				k = gaps[gi].first - off;
 			ssize_t w = send(fd, stream.data() + off, k, MSG_NOSIGNAL);
 			if (w <= 0)
 				break;
@@ -937,7 +1033,7 @@ static std::string feed(bool isclient, const std::string& stream, int chunk, std
 		}
 		shutdown(fd, SHUT_WR);
 	};
-	if (chunk > 0 || stream.size() > 32768) {
+	if (chunk > 0 || stream.size() > 32768 || !gaps.empty()) {
 		g.writing = true;
 		writer().start(write_all);
 	}
@@ -961,6 +1057,10 @@ static std::string feed(bool isclient, const std::string& stream, int chunk, std
 		while (!ws.closed()) {
 			WebSocketMsg m = ws.receive();
 			VF_CHECK(m.length() >= 0, "receive() returned a message of length ", m.length());
+			{
+				std::string w;
+				VF_CHECK(msg_check(m, w), w, " (result ", iter, ", role ", isclient ? "client" : "server", ")");
+			}
 			if (m.length() > 0) {
 				got.push_back(S(m));
 				unsigned sum = 0; // every byte of the result is live storage
@@ -987,8 +1087,14 @@ static void run_in(const vf::Case& c)
 	InPlan p = build_in(c);
 	std::vector<std::string> got;
 	int empties = 0;
-	std::string back = feed(p.isclient, p.stream, p.chunk, got, empties);
+	std::string back = feed(p.isclient, p.stream, p.chunk, got, empties, 0, p.gaps);
 	vf::stats().cls("in.empty_results", (uint64_t)empties);
+	if (!p.close_reason.empty() && got.size() == p.expect.size() + 1 && got.back() == p.close_reason) {
+		// the library hands the reason text of a close frame out through receive() (by design); it went through
+		// the same accessor checks as every message
+		got.pop_back();
+		vf::stats().cls("in.close_reason_returned_by_receive");
+	}
 	// what the WebSocket wrote meanwhile must be pongs (informational: the property does not state the pong contents)
 	{
 		size_t pos = 0, k = 0;
@@ -1563,7 +1669,7 @@ static rc::Gen<vf::Case> gen_in_case(int maxlen)
 {
 	using namespace rc;
 	return gen::map(gen::tuple(vf::irange<int>(0, 1), gen::weightedElement<int>({{6, 0}, {1, 1}, {1, 3}, {1, 7}, {1, 1000}}),
-	                           gen::container<std::vector<vf::Op>>(gen::weightedOneOf<vf::Op>({{3, gen_msg_op(maxlen)}, {1, gen_ctl_op()}})), vf::irange<int>(0, 2)),
+	                           gen::container<std::vector<vf::Op>>(gen::weightedOneOf<vf::Op>({{3, gen_msg_op(maxlen)}, {1, gen_ctl_op()}})), vf::irange<int>(0, 3)),
 	                [](const std::tuple<int, int, std::vector<vf::Op>, int>& t) {
 		                vf::Case c;
 		                c.add(vf::Op("role", {std::get<0>(t), std::get<1>(t)}));
@@ -1593,6 +1699,14 @@ static void classify_in(const vf::Case& c)
 	st.cls("in.frames_key_with_zero_byte", (uint64_t)p.zero_key_byte);
 	if (p.chunk > 0)
 		st.cls("in.delivered_in_chunks");
+	if (!p.close_reason.empty())
+		st.cls("in.close_frame_with_reason_text");
+	st.cls("in.pause>5s_between_fragments", (uint64_t)p.gap_between_fragments);
+	st.cls("in.pause>5s_between_messages", (uint64_t)p.gap_between_messages);
+	st.cls("in.pause>5s_inside_a_frame", (uint64_t)p.gap_inside_frame);
+	for (auto& o : c.ops)
+		if (o.name == "msg")
+			st.cls(o.i(0) & 1 ? (o.i(5) > 1 ? "in.binary_fragmented" : "in.binary_single_frame") : (o.i(5) > 1 ? "in.text_fragmented" : "in.text_single_frame"));
 	for (auto& m : p.expect) {
 		size_t l = m.size();
 		st.cls(l < 126 ? (l >= 85 ? "in.len_85..125" : "in.len_1..84") : l < 65536 ? (l <= 166 ? "in.len_126..166" : l >= 65495 ? "in.len_65495..65535" : "in.len_mid16") : l <= 65576 ? "in.len_65536..65576" : "in.len_big64");
@@ -1884,7 +1998,7 @@ void vf_search(const vf::Args& a)
 							c.add(vf::Op("msg", {(long long)(k & 1), l, (long long)rng.below(1 << 30), masked, key, nfrag, (long long)rng.below((uint64_t)l + 1), (long long)rng.below((uint64_t)l + 1),
 							                     (long long)rng.below((uint64_t)l + 1), 0}));
 						}
-						c.add(vf::Op("end", {(long long)(idx % 3)}));
+						c.add(vf::Op("end", {(long long)(idx % 4)}));
 						if (!run1("in", c))
 							return;
 						cases++;
@@ -2175,6 +2289,35 @@ void vf_search(const vf::Args& a)
 		});
 	}();
 	lap("C2");
+	// ---- B-in 4: a silent peer: pauses of 5.5-6.5 s between two fragments of a message, between two messages and inside a
+	//              frame, while the receiver sits in a blocking receive() (each case costs its pause; they run last of the
+	//              socketpair parts)
+	[&]() {
+		long ncases = a.n(1, 2);
+		for (long k = 0; k < ncases; k++) {
+			int kind = (int)((a.worker + k * 3) % 4);
+			ref::SplitMix r(a.seed * 3571 + (uint64_t)a.worker * 17 + (uint64_t)k);
+			long long ms = 5500 + (long long)r.below(1001);
+			vf::Case c;
+			c.add(vf::Op("role", {(long long)(kind == 1 ? 1 : r.below(2)), 0}));
+			c.add(vf::Op("msg", {(long long)r.below(2), 1 + (long long)r.below(200), (long long)r.below(1 << 30), (long long)r.below(2), (long long)(r.next() & 0xffffffff), 1 + (long long)r.below(3), (long long)r.below(200), (long long)r.below(200), 0, 0}));
+			if (kind == 1)
+				c.add(vf::Op("ctl", {0, 5, (long long)r.below(1000), 1, 77, 1}));
+			int nfrag = 2 + (int)r.below(2);
+			// kind 0/1: before the last fragment; 2: before the first frame (between messages); 3: inside the first frame
+			c.add(vf::Op("gap", {ms, (long long)(kind <= 1 ? nfrag - 1 : 0), (long long)(kind == 3 ? 1 + r.below(60) : 0)}));
+			c.add(vf::Op("msg", {0, 40 + (long long)r.below(200), (long long)r.below(1 << 30), (long long)r.below(2), (long long)(r.next() & 0xffffffff), nfrag, 13, 29, 0, 0}));
+			c.add(vf::Op("msg", {1, 1 + (long long)r.below(300), (long long)r.below(1 << 30), (long long)r.below(2), (long long)(r.next() & 0xffffffff), 1, 0, 0, 0, 0}));
+			c.add(vf::Op("end", {(long long)r.below(4)}));
+			if (!run1("in", c))
+				return;
+			classify_in(c);
+			st.nt(vf::fnv(vf::serialize(c)));
+			if (k == 0 && a.worker == 0)
+				st.sample("in (silent peer): " + vf::serialize(c));
+		}
+	}();
+	lap("Bin4");
 	// ---- the TCP parts run last and only while nothing has failed: a framing defect makes a TCP peer wait for bytes that
 	// never come, which costs the hang bound per case (and per shrink candidate); the socketpair parts above show the
 	// same defect deterministically.  Skipped sections are visible as missing parts in the evidence.
